@@ -1537,7 +1537,7 @@ class ValueString(Value):
     def asDate(self):
         # handle yyyyMMddHHmmss, yyyyMMddHH and yyyyMMdd
         # raise exception if not matching
-        if len(self.value) < 8:
+        if len(self.value) not in (8, 10, 14):
             raise CklRuntimeError(
                 ValueString("ERROR"),
                 "Cannot convert " + str(self.value) + " to date",
